@@ -587,7 +587,7 @@ class PRFAdapter(Fittable2DModel):
             dx = x
             setattr(self.psfmodel, self.xname, x_0)
 
-        if self.xname is None:
+        if self.yname is None:
             dy = y - y_0
         else:
             dy = y
@@ -597,7 +597,8 @@ class PRFAdapter(Fittable2DModel):
             return (flux * self._psf_scale_factor
                     * self._integrated_psfmodel(dx, dy))
 
-        setattr(self.psfmodel, self.yname, flux * self._psf_scale_factor)
+        setattr(self.psfmodel, self.fluxname,
+                flux * self._psf_scale_factor)
         return self._integrated_psfmodel(dx, dy)
 
     def _integrated_psfmodel(self, dx, dy):
